@@ -12,7 +12,7 @@ import (
 
 // Accessors for the C26 harness (vh_transmit).  Unexported names touched: apiMaxBatchSize,
 // apiMaxEventSize, batchedEvent, buildRequestURL, DirectTransmission.dispatchPool,
-// maxConcurrentBatches, DirectTransmission.batchMutex, DirectTransmission.eventBatches, eventBatch.
+// maxConcurrentBatches, DirectTransmission.batchMutex, DirectTransmission.eventBatches, eventBatch (not transmitKey).
 
 // VerifTransmitFacts returns the size limits compiled into the package.
 func VerifTransmitFacts() map[string]string {
@@ -71,15 +71,21 @@ func VerifTransmitHoldMap(d *DirectTransmission) (release func()) {
 	return d.batchMutex.Unlock
 }
 
-// VerifTransmitPending returns the events waiting in the batch the map holds for this destination.
+// VerifTransmitPending returns the waiting events that carry this destination, in batch order.  The
+// batch map is scanned by value (its key type is not named): an event counts by its own APIHost,
+// APIKey and Dataset, whichever batch it sits in.
 func VerifTransmitPending(d *DirectTransmission, apiHost, apiKey, dataset string) []*types.Event {
+	var out []*types.Event
 	d.batchMutex.RLock()
-	b := d.eventBatches[transmitKey{apiHost: apiHost, apiKey: apiKey, dataset: dataset}]
-	d.batchMutex.RUnlock()
-	if b == nil {
-		return nil
+	defer d.batchMutex.RUnlock()
+	for _, b := range d.eventBatches {
+		b.mutex.Lock()
+		for _, e := range b.events {
+			if e.APIHost == apiHost && e.APIKey == apiKey && e.Dataset == dataset {
+				out = append(out, e)
+			}
+		}
+		b.mutex.Unlock()
 	}
-	b.mutex.Lock()
-	defer b.mutex.Unlock()
-	return append([]*types.Event(nil), b.events...)
+	return out
 }
